@@ -64,7 +64,8 @@ type Call struct {
 	Seq      int32
 	Body     uint64
 	ctx      context.Context
-	cancel   context.CancelFunc
+	cancel   func()
+	CtxKind  int
 	th       *thread
 	sendCtx  context.Context
 	timer    *simTimer
@@ -288,6 +289,10 @@ func (s *Sim) send(ctx context.Context, msgID int64, seqNo int32, in bin.Encoder
 	case "err":
 		return errSend
 	case "can":
+		// a send interrupted by its context returns that context's error
+		if err := ctx.Err(); err != nil {
+			return err
+		}
 		return context.Canceled
 	}
 	return nil
@@ -443,7 +448,7 @@ func (s *Sim) record(label, threadObs string) {
 }
 
 // Classify maps Do's return value to the model's Ret classes.
-func Classify(err error) string {
+func Classify(err error, ctx context.Context) string {
 	var rl *rpc.RetryLimitReachedErr
 	var re *rpcError
 	var te *tgerr.Error
@@ -465,7 +470,7 @@ func Classify(err error) string {
 		return fmt.Sprintf("retryLimit%d", rl.Retries)
 	case errors.Is(err, rpc.ErrEngineClosed):
 		return "closedRetry"
-	case err == context.Canceled:
+	case ctx != nil && ctx.Err() != nil && err == ctx.Err():
 		return "ctx"
 	case errors.Is(err, context.Canceled) && strings.Contains(err.Error(), "engine forcibly closed"):
 		return "closedNoRetry"
